@@ -14,8 +14,9 @@
                                    it is about to return res; cerr = ctx.Err() at that moment
      {"ev":"Late","t":..,"what":"start"|"stop","panicked":bool}     a registration attempt by the environment
      {"ev":"Ret","t":..,"kind":"none"|"start"|"stop"|"timeout"|"type"|"other","id":i,"hk":..,"ord":o,"text":..}
-                                   Run returned: nil | wrapped error of start / stop hook i (hk: whose scripted error it
-                                   carries; ord: the order named by its "hook" field) | shutdown timeout | unexpected type
+                                   Run has returned: nil | wrapped error of start / stop hook i (hk: whose scripted error it
+                                   carries; ord: the order named by its "hook" field) | shutdown timeout | unexpected type.
+                                   Logged by the caller: a pure observation of `ret` (the return itself is a silent step)
      {"ev":"End","t":..}           the executor stops watching (t + 0.5 ms: never ties with anything)
    ({"ev":"Hang"}, {"ev":"Panic"} match nothing.)
    Not logged, inferred by TLC: the loop checks and `go` statements of Run's goroutine, which of several equal-order
@@ -28,7 +29,8 @@ R == Trace[1]
 TraceInit == /\ TrInit /\ seen = FALSE
              /\ IF TLen >= 1 /\ Trace[1].ev = "Reset" THEN InitWith(R.starts, R.stops, R.cancelAt, R.lates) ELSE Init
 Last(s) == s[Len(s)]
-Clock == CheckInv("Clock", Ev.t = now)
+\* the event's timestamp is the model's present (a model that is behind may still Tick: no name for that)
+Clock == Ev.t = now \/ (Ev.t < now /\ InvFail("HappenedEarlierThanPossible"))
 
 Keep == UNCHANGED seen
 TReset == IsEvent("Reset") /\ l = 1 /\ UNCHANGED vars /\ Keep
